@@ -117,6 +117,10 @@ def coverage(ctx, rows, cfgs):
         "verify_true": sum(sum(1 for v in r["ver"] if v) for r in qs),
         "verify_false": sum(sum(1 for v in r["ver"] if not v) for r in qs),
         "statuses": sorted({p["st"] for c in cfgs for p in c["prov"]}),
+        # mandatory requirements on >= 2 collections that both carry extensions (per-requirement state of isRequirementSupported)
+        "queries_two_collections_with_extensions": sum(
+            1 for r in qs if not r["err"] and not any(q.get("mx") for q in r["eff"].get("reqs", []))
+            and len({(q["ifc"], q["ad"]) for q in r["eff"].get("reqs", []) if q["ext"]}) >= 2),
     }
     ctx.cov["pairing"] = cov
     return cov
@@ -187,7 +191,7 @@ def run(ctx):
     ctx.assumptions += ASSUMPTIONS
     need = ctx.pick(10, 60)
     for k in ("queries_with_picks", "queries_with_mix_reqs", "queries_exclusive", "queries_mixed_sel",
-              "queries_with_ineligible_rows"):
+              "queries_with_ineligible_rows", "queries_two_collections_with_extensions"):
         if cov[k] < need:
             raise vlib.Infra("vacuous coverage: %s = %d < %d" % (k, cov[k], need))
     if cov["verify_true"] < need or cov["verify_false"] < need or len(cov["statuses"]) < 4:
